@@ -28,6 +28,8 @@ var c06Users = []seedUser{
 	{Name: "usr-iota", PW: "iota-password-4", Admin: false, PID: 2},
 	// differs from usr-theta only in letter case: a different user (names are case-sensitive), and an admin
 	{Name: "Usr-Theta", PW: "Theta-password-5", Admin: true, PID: 1},
+	// '@' is a legal character in user names: another account, and an admin, whatever a frontend thinks of realms
+	{Name: "usr-theta@corp", PW: "corp-password-6", Admin: true, PID: 1},
 }
 
 type c06Req struct {
@@ -40,12 +42,14 @@ type c06Req struct {
 	Admin    bool          `json:"admin,omitempty"`
 	RightPW  bool          `json:"rightpw,omitempty"`
 	D        time.Duration `json:"d,omitempty"`
+	// PWOf (authenticate): present the password of this user instead of the target's own
+	PWOf string `json:"pw_of,omitempty"`
 }
 
 var c06Creds = []string{"none", "garbage", "expired-aged", "expired-sealed", "future-sealed", "tampered", "other-instance", "user-token", "admin-token", "own-token",
 	"oldpw-right", "oldpw-wrong", "both", "both-wrong-token"}
 var c06Shapes = []string{"exact", "exact", "exact", "exact", "extra-fields", "dup-keys", "key-case", "trailing", "missing-field", "null-field", "wrong-type", "empty-strings", "null-body", "array-body", "truncated"}
-var c06Targets = []string{"adm-zeta", "adm-eta", "usr-theta", "usr-iota", "new-kappa", "no-such-user", ".hidden", "-dash", "with space", "Adm-Zeta", "Usr-Theta", "usr-theta ", ""}
+var c06Targets = []string{"adm-zeta", "adm-eta", "usr-theta", "usr-iota", "new-kappa", "no-such-user", ".hidden", "-dash", "with space", "Adm-Zeta", "Usr-Theta", "usr-theta@corp", "usr-theta@corp", "usr-theta ", ""}
 
 func genC06(t *rapid.T) []c06Req {
 	var reqs []c06Req
@@ -63,6 +67,10 @@ func genC06(t *rapid.T) []c06Req {
 			r.Target = r.Actor
 			if rapid.IntRange(0, 5).Draw(t, "odd") == 0 {
 				r.Target = rapid.SampledFrom(c06Targets).Draw(t, "otarget")
+			}
+			if ep == "authenticate" && rapid.IntRange(0, 3).Draw(t, "crosspw") == 0 {
+				// somebody else's (correct) password under this name: e.g. the name up to the '@', a case variant, the actor
+				r.PWOf = rapid.SampledFrom([]string{"usr-theta", "Usr-Theta", "usr-theta@corp", "adm-zeta", r.Actor}).Draw(t, "pwof")
 			}
 		case "advance":
 			r.D = time.Duration(rapid.SampledFrom([]int{1, 100, 299, 300, 301, 599, 600, 601, 700}).Draw(t, "secs")) * time.Second
@@ -443,6 +451,10 @@ func runC06(reqs []c06Req) string {
 			pw := "wrong-password"
 			if u, ok := m.users[r.Target]; ok && r.RightPW {
 				pw = u.pw
+			}
+			if u, ok := m.users[r.PWOf]; ok && r.PWOf != "" {
+				pw = u.pw
+				vlib.Class("login:another-users-password")
 			}
 			body, eff, class := shapeBody(r.Shape, []field{{"username", r.Target}, {"password", pw}}, i)
 			rec := do(mux, "/api/authenticate", body, nil)
